@@ -129,6 +129,91 @@ def rule_right_inverse(repo: Repo, rep: Report) -> int:
     return n + 1
 
 
+def rm_inverse_evaluated(repo: Repo):
+    """ReedMullerCodeEncoder.inverse_encode evaluated as a whole (own arithmetic; the module's constants and helpers
+    available) on RM(1,3) - every codeword alone and with each single bit flipped - and on RM(2,4) (2048 codewords, so that
+    a search organised in slabs of up to 1024 messages has more than one slab) for messages from the upper half of the
+    enumeration with one bit flipped, as a single word and as a batch: d = 4, so one error lies within the unique-decoding
+    radius and the first result must be the transmitted message, in the layout of the input.
+    Returns (status, detail) or (None, reason)."""
+    import itertools
+
+    from ..constfold import Unfoldable
+    from ..frag import FragRaise, FragReturn, run_fragment
+
+    ci = repo.cls(f"{ENC}/reed_muller_code.py", "ReedMullerCodeEncoder")
+    fi = repo.method(ci, "inverse_encode")
+    consts = {st_.targets[0].id: st_.value for st_ in fi.module.tree.body if isinstance(st_, ast.Assign) and len(st_.targets) == 1 and isinstance(st_.targets[0], ast.Name)}
+    funcs = {nm: f.node for nm, f in ci.module.functions.items()}
+    funcs.update({f"self.{nm}": m.node for nm, m in ci.methods.items() if nm.startswith("_") and not nm.startswith("__")})
+
+    def gen(r, m):
+        v = [[(j >> (m - 1 - i)) & 1 for j in range(2**m)] for i in range(m)]
+        rows = []
+        for order in range(r, 0, -1):
+            for idx in itertools.combinations(range(m), order):
+                rows.append([int(all(v[i][j] for i in idx)) for j in range(2**m)])
+        rows.append([1] * 2**m)
+        return rows
+
+    def enc(msg, G):
+        return [sum(msg[i] * G[i][j] for i in range(len(G))) % 2 for j in range(len(G[0]))]
+
+    def call(G, d, x):
+        attrs = {"self.code_length": len(G[0]), "self.code_dimension": len(G), "self.generator_matrix": [[float(v) for v in r] for r in G], "self.minimum_distance": d, "self.device": "cpu"}
+        try:
+            run_fragment(fi.body, dict(consts, x=x, args=[], kwargs={}), attrs, funcs=funcs, materialise=True, max_steps=40000000, attrs_live=True)
+        except FragReturn as ret:
+            return ret.value
+        raise Unfoldable("no value returned")
+
+    def flip(w, j):
+        return [float(b ^ (1 if t == j else 0)) for t, b in enumerate(w)]
+
+    words = 0
+    try:
+        G = gen(1, 3)
+        for msg in itertools.product([0, 1], repeat=4):
+            cw = enc(list(msg), G)
+            batch = [[float(b) for b in cw]] + [flip(cw, j) for j in range(8)]
+            out = call(G, 4, batch)
+            dec = out[0] if isinstance(out, (list, tuple)) and len(out) == 2 else None
+            if not (isinstance(dec, list) and len(dec) == 9 and all(isinstance(r, list) and len(r) == 4 for r in dec)):
+                return None, "the first result is not a (9, 4) matrix for a (9, 8) input"
+            for t, r in enumerate(dec):
+                words += 1
+                if [int(v) for v in r] != list(msg):
+                    return VIOLATION, f"RM(1,3), message {list(msg)}, " + ("codeword itself" if t == 0 else f"bit {t - 1} flipped (1 error, t = 1)") + f": inverse_encode returns {[int(v) for v in r]}"
+        G = gen(2, 4)
+        k = len(G)
+        for idx_, pos in ((1500, 3), (2047, 0), (1029, 15), (700, 8)):
+            msg = [(idx_ >> (k - 1 - i)) & 1 for i in range(k)]
+            cw = enc(msg, G)
+            out = call(G, 4, flip(cw, pos))
+            dec = out[0] if isinstance(out, (list, tuple)) and len(out) == 2 else None
+            if not (isinstance(dec, list) and len(dec) == k and all(not isinstance(v, list) for v in dec)):
+                return None, "the first result is not a vector of k symbols for a single received word"
+            words += 1
+            if [int(v) for v in dec] != msg:
+                return VIOLATION, f"RM(2,4) (2048 codewords, d = 4, t = 1): message number {idx_} of the enumeration, sent alone with bit {pos} flipped, is decoded to {[int(v) for v in dec]} instead of {msg}: the result is not the nearest codeword"
+        m1 = [(1500 >> (k - 1 - i)) & 1 for i in range(k)]
+        m2 = [(3 >> (k - 1 - i)) & 1 for i in range(k)]
+        out = call(G, 4, [flip(enc(m1, G), 5), flip(enc(m2, G), 9)])
+        dec = out[0]
+        words += 2
+        if not (isinstance(dec, list) and len(dec) == 2 and [[int(v) for v in r] for r in dec] == [m1, m2]):
+            return VIOLATION, f"RM(2,4): a batch of two words with one error each is decoded to {dec} instead of {[m1, m2]}"
+    except (Unfoldable, FragRaise, TypeError, IndexError, ValueError, KeyError) as exc:
+        return None, str(exc) or type(exc).__name__
+    return OK, f"{words} received words (RM(1,3): all codewords with 0 / 1 error; RM(2,4): messages from both halves of the enumeration with 1 error, alone and in a batch): the transmitted message every time"
+
+
+def rm_inverse_cached(repo: Repo):
+    if not hasattr(repo, "_kv_rminv_cache"):
+        repo._kv_rminv_cache = rm_inverse_evaluated(repo)
+    return repo._kv_rminv_cache
+
+
 def inverse_encode_evaluated(repo: Repo):
     """LinearBlockCodeEncoder.inverse_encode evaluated as a whole (class helpers and apply_blockwise followed, own
     arithmetic) for three codes - one of them with a parity-check matrix that has a linearly dependent extra row - on
@@ -422,7 +507,11 @@ def rule_blockwise(repo: Repo, rep: Report) -> int:
 
     if lint_chunk_local_index(rep, rm, "INVERSE-FORM") == 0:
         rep.ok("INVERSE-FORM", rm, "no chunked nearest-codeword search", "indices refer to the whole codebook", nontrivial=False)
-    # nearest-codeword search shape (also C02)
+    # nearest-codeword search: evaluated as a whole first, the listed shape as the fallback (also C02)
+    st_, d_ = rm_inverse_cached(repo)
+    if st_ is not None:
+        rep.add("INVERSE-FORM", rm, "Reed-Muller inverse_encode evaluated on RM(1,3) and RM(2,4) (codewords and words with one error)", st_, d_, node=rm.node)
+        return n + 1
     need = ["cws = msgs @ self.generator_matrix % 2", "dists = diff.sum(dim=2)", "best = dists.argmin(dim=0)", "decoded = msgs[best]", "pred_cw = cws[best]"]
     for t in need:
         rep.expect(t in rb, "INVERSE-FORM", rm, f"RM nearest-codeword step `{t}`", "exhaustive minimum Hamming distance over the encoder's own codebook; message and codeword taken at the same index", "the nearest-codeword search changed")
